@@ -26,7 +26,7 @@ VARIABLES q,      \* operational: client id |-> sequence of queued copies [tag, 
 ovars == <<q, npid>>
 allvars == <<bvars, q, npid>>
 
-Conf == [mode |-> ModeC, qq0 |-> QQ0, maxinflight |-> 100, sessexpiry |-> 100, srvrecvmax |-> 100, srvaliasmax |-> 10, srvmaxpkt |-> 1000000, msgexpiry |-> 0, maxqueued |-> 1000]
+Conf == [mode |-> ModeC, qq0 |-> QQ0, maxinflight |-> 100, sessexpiry |-> 100, srvrecvmax |-> 100, srvaliasmax |-> 10, srvmaxpkt |-> 1000000, msgexpiry |-> 0, maxqueued |-> 1000, hooks |-> FALSE, anydisc |-> FALSE]
 
 Numbering == CHOOSE f \in [CIDs -> 1..Cardinality(CIDs)] : \A a, b \in CIDs : a # b => f[a] # f[b]
 N(c) == Numbering[c]
@@ -40,11 +40,12 @@ VerOf(c) == IF Numbering[c] = 1 THEN 5 ELSE 4
 OInit == /\ cfg = Conf
          /\ subs = {} /\ owed = <<>> /\ gowed = {} /\ ctl = <<>> /\ ret = <<>> /\ unack = <<>> /\ infl = <<>> /\ last = <<>>
          /\ ctr = [pub |-> 0, oid |-> 0]
+         /\ aux = [wills |-> <<>>, reg |-> <<>>, closedc |-> {}, srvended |-> {}]
          /\ conn = [k \in 1..Cardinality(CIDs) |->
                      LET c == CHOOSE d \in CIDs : Numbering[d] = k IN
                      [cid |-> c, ver |-> VerOf(c), st |-> "up", clean |-> TRUE, recvmax |-> 0, expiry |-> 0, sawfresh |-> FALSE,
-                      maxpkt |-> 0, aliasmax |-> 0, open |-> 0, aliasin |-> <<>>, dying |-> {}, disc |-> FALSE]]
-         /\ sess = [c \in CIDs |-> [online |-> Numbering[c], ver |-> VerOf(c)]]
+                      maxpkt |-> 0, aliasmax |-> 0, open |-> 0, aliasin |-> <<>>, dying |-> {}, disc |-> FALSE, will |-> NoWill, addr |-> "", t0 |-> 0, force |-> FALSE, resumed |-> FALSE, bye |-> [has |-> FALSE, code |-> 0, exp |-> 0 - 1]]]
+         /\ sess = [c \in CIDs |-> [online |-> Numbering[c], ver |-> VerOf(c), expireAt |-> 0]]
          /\ q = [c \in CIDs |-> <<>>]
          /\ npid = [c \in CIDs |-> 1]
 
@@ -88,9 +89,9 @@ OpPublish(src, m) ==
 DoConnect(c, ver) ==
   /\ N(c) \notin DOMAIN conn
   /\ LET cn == Put(conn, N(c), [cid |-> c, ver |-> ver, st |-> "up", clean |-> TRUE, recvmax |-> 0, expiry |-> 0, sawfresh |-> FALSE,
-                      maxpkt |-> 0, aliasmax |-> 0, open |-> 0, aliasin |-> <<>>, dying |-> {}, disc |-> FALSE]) IN conn' = cn
-  /\ sess' = Put(sess, c, [online |-> N(c), ver |-> ver])
-  /\ UNCHANGED <<cfg, subs, owed, gowed, ctl, ret, unack, infl, last, ctr, q, npid>>
+                      maxpkt |-> 0, aliasmax |-> 0, open |-> 0, aliasin |-> <<>>, dying |-> {}, disc |-> FALSE, will |-> NoWill, addr |-> "", t0 |-> 0, force |-> FALSE, resumed |-> FALSE, bye |-> [has |-> FALSE, code |-> 0, exp |-> 0 - 1]]) IN conn' = cn
+  /\ sess' = Put(sess, c, [online |-> N(c), ver |-> ver, expireAt |-> 0])
+  /\ UNCHANGED <<cfg, subs, owed, gowed, ctl, ret, unack, infl, last, ctr, aux, q, npid>>
 
 DoSubscribe(c, f, o) ==
   /\ Up(N(c))
@@ -117,7 +118,7 @@ DoPublish(c, t, qos, retain, empty) ==
   /\ ctr.pub < MaxPubs
   /\ Publication(c, m) /\ RetainUpdate(m)
   /\ q' \in OpPublish(c, m)
-  /\ UNCHANGED <<cfg, subs, conn, sess, ctl, unack, infl, last, npid>>
+  /\ UNCHANGED <<cfg, subs, conn, sess, ctl, unack, infl, last, npid, aux>>
 
 DoApiPublish(t, qos, retain) ==
   LET m == [topic |-> t.topic, lv |-> t.lv, sys |-> t.sys, qos |-> qos, retain |-> retain, empty |-> FALSE,
@@ -125,7 +126,7 @@ DoApiPublish(t, qos, retain) ==
   /\ ctr.pub < MaxPubs
   /\ Publication(API, m)
   /\ q' \in OpPublish(API, m)
-  /\ UNCHANGED <<cfg, subs, conn, sess, ctl, ret, unack, infl, last, npid>>
+  /\ UNCHANGED <<cfg, subs, conn, sess, ctl, ret, unack, infl, last, npid, aux>>
 
 \* what the head of c's queue looks like on the wire
 HeadPkt(c) == LET h == Head(q[c]) IN
@@ -158,7 +159,7 @@ DoSend(c) ==
   /\ infl' = infl   \* the client acknowledges at once (packet-id bookkeeping is Outbound.tla's business)
   /\ q' = [q EXCEPT ![c] = Tail(@)]
   /\ npid' = [npid EXCEPT ![c] = IF h.qos = 0 THEN @ ELSE @ + 1]
-  /\ UNCHANGED <<cfg, subs, conn, sess, ctl, ret, unack, ctr>>
+  /\ UNCHANGED <<cfg, subs, conn, sess, ctl, ret, unack, ctr, aux>>
 
 DoAck(c) ==
   /\ Up(N(c)) /\ Infl(c) # {}
